@@ -23,6 +23,7 @@ type Env struct {
 	scope *types.Scope   // innermost scope for spec identifiers
 	pos   token.Pos
 	inQuant int
+	proving bool // evaluating a goal in a positive position (witnesses of exists may be used)
 	retVals []Val // values bound to result / result0..
 }
 
@@ -36,6 +37,16 @@ func (e *Env) sub() *Env {
 }
 
 func (e *Env) d() *Decls { return e.v.d }
+
+// nonProving returns an environment for sub-expressions in negative or mixed polarity.
+func (e *Env) nonProving() *Env {
+	if !e.proving {
+		return e
+	}
+	n := *e
+	n.proving = false
+	return &n
+}
 
 var (
 	tInt     = types.Typ[types.Int]
@@ -296,6 +307,12 @@ func (v *V) typeInv(st *State, val Val) []string {
 		if st != nil {
 			out = append(out, fmt.Sprintf("(<= %s %s)", val.S, st.alloc))
 		}
+		if p, ok := u.(*types.Pointer); ok {
+			if _, named := p.Elem().(*types.Named); named {
+				// a non-nil pointer has its static type as dynamic type when stored in an interface
+				out = append(out, fmt.Sprintf("(=> (not (= %s 0)) (= (dyn_type %s) %s))", val.S, val.S, v.typeTag(t)))
+			}
+		}
 	case *types.Slice:
 		out = append(out, v.sliceWF(st, val.S)...)
 	}
@@ -405,6 +422,10 @@ func (e *Env) evalUnary(x *ast.UnaryExpr) Val {
 	case token.ARROW:
 		panic(unsupported("channel receive"))
 	}
+	if x.Op == token.NOT {
+		a := e.nonProving().eval(x.X)
+		return Val{T: a.T, S: not(a.S)}
+	}
 	a := e.eval(x.X)
 	switch x.Op {
 	case token.NOT:
@@ -461,8 +482,12 @@ func (e *Env) evalBinary(x *ast.BinaryExpr) Val {
 		}
 		return Val{T: t, S: or(a.S, b.S)}
 	}
-	a := e.eval(x.X)
-	b := e.eval(x.Y)
+	oe := e
+	if x.Op == token.EQL || x.Op == token.NEQ {
+		oe = e.nonProving()
+	}
+	a := oe.eval(x.X)
+	b := oe.eval(x.Y)
 	return e.binop(x.Op, a, b, x.Pos())
 }
 
